@@ -7,7 +7,7 @@ use crate::{
         node::RustNode,
         structures::element::ElementType,
         helpers::{write_check_restrictions_footer, write_check_restrictions_header},
-        structures::xml_name_to_rust_name,
+        structures::{as_string_literal_content, xml_name_to_rust_name},
     },
     reader::WriteXml,
 };
@@ -120,7 +120,7 @@ where
     }
     let namespaces = xmlns
         .iter()
-        .map(|(k, v)| format!("\"{k}\" = \"{v}\""))
+        .map(|(k, v)| format!("\"{k}\" = \"{}\"", as_string_literal_content(v)))
         .collect::<Vec<String>>()
         .join(", ");
 
